@@ -7,6 +7,7 @@ import (
 	"fmt"
 	"io"
 	"strings"
+	"sync/atomic"
 
 	"github.com/creachadair/jrpc2"
 	"github.com/creachadair/jrpc2/channel"
@@ -33,8 +34,9 @@ import (
 // server restarted on a fresh channel answers a probe.
 
 type c08scenario struct {
-	name string
-	push bool
+	name    string
+	push    bool
+	basectx bool // the server's NewContext hands out a context the scenario ends with "@endbase"
 	// pre-stop traffic; each step is followed by a settle
 	steps []string // raw records, or "@callback"
 }
@@ -55,6 +57,11 @@ var c08scenarios = []c08scenario{
 	{name: "notebatch", steps: []string{
 		"[" + peer.Req("", "G", "n1") + "," + peer.Req("", "i", "n2") + "]", // the slow notification is not the last of its batch
 		"[" + peer.Req("", "i", "n3") + "," + peer.Req("", "G", "n4") + "," + peer.Req("", "G", "n5") + "]",
+	}},
+	{name: "basectx", basectx: true, steps: []string{
+		peer.Req("", "i", "n1"), peer.Req("1", "g", "c1"),
+		"@endbase", // the application's base context ends (shutdown in progress)
+		peer.Req("", "i", "n2"), peer.Req("2", "i", "c2"), "[" + peer.Req("", "i", "n3") + "," + peer.Req("3", "i", "c3") + "]",
 	}},
 	{name: "callback", push: true, steps: []string{"@callback", peer.Req("1", "g", "c1")}},
 	{name: "mixed", push: true, steps: []string{
@@ -118,11 +125,24 @@ func c08exec(c *vt.Ctx, r c08run) (prof c08profile) {
 		case "send-err":
 			faults = append(faults, vchan.Fault{Op: vchan.OpSend, N: r.cause.k, Err: errC08})
 		}
-		rig := peer.NewServerRig(c, r.ctrl, peer.ServerOpts{Concurrency: 4, AllowPush: r.sc.push, PipeLike: r.pipeLike, Faults: faults})
+		opts := peer.ServerOpts{Concurrency: 4, AllowPush: r.sc.push, PipeLike: r.pipeLike, Faults: faults}
+		var base atomic.Pointer[context.Context]
+		var endBase context.CancelFunc = func() {}
+		if r.sc.basectx {
+			bctx, cancel := context.WithCancel(context.Background())
+			base.Store(&bctx)
+			endBase = cancel
+			opts.BaseContext = func() context.Context { return *base.Load() }
+		}
+		defer func() { endBase() }()
+		rig := peer.NewServerRig(c, r.ctrl, opts)
 		log := rig.Log
 		callbacks := 0
 		for _, st := range r.sc.steps {
-			if st == "@callback" {
+			if st == "@endbase" {
+				log.Add("basectx.end", "", "")
+				endBase()
+			} else if st == "@callback" {
 				callbacks++
 				n := callbacks
 				go func() {
@@ -184,7 +204,13 @@ func c08exec(c *vt.Ctx, r c08run) (prof c08profile) {
 		if got := jrpc2.ServerMetrics().Get("servers_active").String(); got != active0 {
 			c.Failf("servers_active is %s after shutdown, was %s before start", got, active0)
 		}
-		// restart on a fresh channel
+		// restart on a fresh channel (with a live base context again)
+		if r.sc.basectx {
+			bctx, cancel := context.WithCancel(context.Background())
+			base.Store(&bctx)
+			old := endBase
+			endBase = func() { old(); cancel() }
+		}
 		rig.Peer, rig.End = vchan.NewPair("cli", "srv", rig.Mon)
 		rig.End.PipeLike = r.pipeLike
 		rig.Srv.Start(rig.End)
@@ -327,8 +353,16 @@ func c08judge(c *vt.Ctx, r c08run, rig *peer.ServerRig, st jrpc2.ServerStatus, c
 		}
 	}
 	// notifications received before the stop must have been handed to their handler
+	// (unless the application's base context had already ended: a request whose
+	// context is done is not started, as for a call cancelled while waiting for a slot)
+	var tBaseEnd int64 = 1 << 62
 	for _, e := range evs {
-		if e.Kind != "wire.srv" || e.Tag != "recv.exit" || e.Info == "" || e.T > tCause {
+		if e.Kind == "basectx.end" {
+			tBaseEnd = e.T
+		}
+	}
+	for _, e := range evs {
+		if e.Kind != "wire.srv" || e.Tag != "recv.exit" || e.Info == "" || e.T > tCause || e.T > tBaseEnd {
 			continue
 		}
 		ms, _, err := peer.Decode([]byte(e.Info))
@@ -351,7 +385,7 @@ func c08judge(c *vt.Ctx, r c08run, rig *peer.ServerRig, st jrpc2.ServerStatus, c
 			}
 		}
 	}
-	if r.cause.kind == "recv-data-eof" && first == "recv-data-eof" && invs["final"] == nil {
+	if r.cause.kind == "recv-data-eof" && first == "recv-data-eof" && invs["final"] == nil && tCause < tBaseEnd {
 		c.Failf("a final notification delivered together with io.EOF never reached its handler")
 	}
 	// callbacks must have returned
